@@ -11,8 +11,8 @@ import (
 	"regexp"
 	"strings"
 
-	"tcheck/ir"
 	"tcheck/core"
+	"tcheck/ir"
 	"tcheck/load"
 )
 
@@ -163,7 +163,7 @@ func DowngradeRestructured(rc *RC) {
 		return h
 	}
 	for _, o := range rc.S.Obs {
-		if o.Verdict != core.Violation {
+		if o.Verdict != core.Violation || o.Firm {
 			continue
 		}
 		// keys of families name the member after a colon: pkg.Family/class:Member
